@@ -190,6 +190,11 @@ def showGrid (g : Grid) : String :=
      | some w => showWeights w
      | none => "index")
 
+/-- the dictionary of `to_dict`, canonically: names, the regular triple, the arrays, the stored weights -/
+def showDict (d : Dict) : String :=
+  d.coordinateSystem ++ " " ++ d.type ++ " " ++ showRatList d.delta ++ " " ++ showNatList d.dims ++ " " ++
+    showRatList d.zero ++ " " ++ showRatLists d.arrays ++ " " ++ showWeights d.weights
+
 /-- the matrix of a rotation request: `r2 c s` or `r3 a b d c s` -/
 def parseMatrix? : List String → Option (List (List Rat))
   | ["r2", c, s] => do let c ← parseRat? c; let s ← parseRat? s; pure (rot2 c s)
@@ -229,6 +234,24 @@ def stepEffect (st : Store) : List String → Option (Effect × String)
   | ["copy", i] => do
     let i ← parseNat? i; let g ← st[i]?
     pure (Effect.push g, s!"ok {st.length}")
+  | ["todict", i] => do
+    -- `grid.to_dict()`: what is written
+    let i ← parseNat? i; let g ← st[i]?
+    pure (Effect.keep, "ok " ++ showDict g.toDict)
+  | ["rtdict", i] => do
+    -- `Grid.from_dict(grid.to_dict())`
+    let i ← parseNat? i; let g ← st[i]?
+    match Grid.fromDict g.toDict with
+    | some g' => pure (Effect.push g', s!"ok {st.length}")
+    | none => pure (Effect.keep, "err key")
+  | ["rtdictas", i, sys, ty] => do
+    -- `Grid.from_dict` of the dictionary with its names replaced (`=` keeps one); unknown names: KeyError
+    let i ← parseNat? i; let g ← st[i]?
+    let d := g.toDict
+    match Grid.fromDict { d with coordinateSystem := if sys = "=" then d.coordinateSystem else sys,
+                                 type := if ty = "=" then d.type else ty } with
+    | some g' => pure (Effect.push g', s!"ok {st.length}")
+    | none => pure (Effect.keep, "err key")
   | ["scale", i, a] => do
     let i ← parseNat? i; let g ← st[i]?; let a ← parseScaleArg? a
     match g.scale a with
@@ -245,6 +268,23 @@ def stepEffect (st : Store) : List String → Option (Effect × String)
   | ["shifted", i, b] => do
     let i ← parseNat? i; let g ← st[i]?; let b ← parseRatList? b
     pure (Effect.push (g.shift b), s!"ok {st.length}")
+  | ["shiftf", i, b] => do
+    -- float64 arithmetic: every stored sum is rounded to nearest-even (C10: shifts that are absorbed)
+    let i ← parseNat? i; let g ← st[i]?; let b ← parseRatList? b
+    pure (Effect.update i (g.shiftR roundF64 b), "ok")
+  | ["shiftedf", i, b] => do
+    let i ← parseNat? i; let g ← st[i]?; let b ← parseRatList? b
+    pure (Effect.push (g.shiftR roundF64 b), s!"ok {st.length}")
+  | ["absorbs", i, b] => do
+    -- will the binary64 shift by `b` leave every stored value of grid `i` as it is?
+    let i ← parseNat? i; let g ← st[i]?; let b ← parseRatList? b
+    pure (Effect.keep, "ok " ++ showBool (g.coords.absorbs roundF64 b))
+  | ["shiftvals", i] => do
+    let i ← parseNat? i; let g ← st[i]?
+    pure (Effect.keep, "ok " ++ showRatLists g.coords.shiftVals)
+  | ["fl", x] => do
+    let x ← parseRat? x
+    pure (Effect.keep, "ok " ++ showRat (roundF64 x))
   | ["reverse", i] => do
     let i ← parseNat? i; let g ← st[i]?
     pure (Effect.update i g.reverse, "ok")
@@ -319,12 +359,42 @@ def stepEffect (st : Store) : List String → Option (Effect × String)
     match g.weightListOld with
     | some l => pure (Effect.keep, "ok " ++ showRatList l)
     | none => pure (Effect.keep, "err index")
+  | ["aspolar", i] => do
+    -- `grid.as_('polar')` of a Cartesian 2-D grid: per point `[r,c,s]` (direction instead of angle), `[]` = irrational radius
+    let i ← parseNat? i; let g ← st[i]?
+    if g.system ≠ .cartesian ∨ g.coords.ndim ≠ 2 then pure (Effect.keep, "err value") else
+    pure (Effect.keep, "ok " ++ showRatLists (g.coords.asPolarPts.map fun o => o.getD []))
+  | ["ascart", i, cs, sn] => do
+    -- `grid.as_('cartesian')` of a polar grid; the directions `(cos θ_k, sin θ_k)` are supplied per point
+    let i ← parseNat? i; let g ← st[i]?; let cs ← parseRatList? cs; let sn ← parseRatList? sn
+    if cs.length ≠ g.coords.size ∨ sn.length ≠ g.coords.size then none else
+    if g.system ≠ .polar ∨ g.coords.ndim ≠ 2 then pure (Effect.keep, "err value") else
+    pure (Effect.keep, "ok " ++ showRatLists (g.coords.asCartPts (List.zip cs sn)))
+  | ["kinds"] => pure (Effect.keep, "ok k" ++ String.join (st.map fun g => toString g.coords.kind))
+  -- the right-hand sides of the `points_*` theorems: the images of the CURRENT points under the map the operation stands for
+  | ["image", i, "scale", a] => do
+    let i ← parseNat? i; let g ← st[i]?; let a ← parseScaleArg? a
+    let f := if g.system = .polar then (match a with | .scalar k => [k, 1] | .vector v => v) else a.factors g.coords.ndim
+    pure (Effect.keep, "ok " ++ showRatLists (g.coords.points.map (scalePt f)))
+  | ["image", i, "shift", b] => do
+    let i ← parseNat? i; let g ← st[i]?; let b ← parseRatList? b
+    pure (Effect.keep, "ok " ++ showRatLists (g.coords.points.map (shiftPt b)))
+  | ["image", i, "reverse"] => do
+    let i ← parseNat? i; let g ← st[i]?
+    pure (Effect.keep, "ok " ++ showRatLists g.coords.points.reverse)
+  | "image" :: i :: "rotate" :: m => do
+    let i ← parseNat? i; let g ← st[i]?; let m ← parseMatrix? m
+    pure (Effect.keep, "ok " ++ showRatLists (g.coords.points.map (linPt m)))
   | ["size", i] => do
     let i ← parseNat? i; let g ← st[i]?
     pure (Effect.keep, s!"ok {g.coords.size} {g.coords.ndim}")
   | ["eq", i, j] => do
     let i ← parseNat? i; let j ← parseNat? j; let a ← st[i]?; let b ← st[j]?
     pure (Effect.keep, "ok " ++ showBool (a.eq b))
+  | ["eqnan", i, j, na, nb] => do
+    let i ← parseNat? i; let j ← parseNat? j; let a ← st[i]?; let b ← st[j]?
+    let na ← parseNat? na; let nb ← parseNat? nb
+    pure (Effect.keep, "ok " ++ showBool (a.eqNaN b (na != 0) (nb != 0)))
   | ["eqold", i, j] => do
     let i ← parseNat? i; let j ← parseNat? j; let a ← st[i]?; let b ← st[j]?
     pure (Effect.keep, "ok " ++ showBool (a.eqOld b))
